@@ -161,6 +161,10 @@ def calls_of(lines, fname):
     return res
 
 
+CAP_LEN = "{c_var_len}"
+CAP_CFI = "{cfi_prefix}{c_var}->elem_len"
+
+
 # ------------------------------------------------------------------------------------------------- C06 / T1
 def release_pairing(ctx, tabs):
     """temporary buffers a row allocates are freed by the row, last thing; a destructor entry deletes what the
@@ -184,6 +188,14 @@ def release_pairing(ctx, tabs):
                     ctx.item("C06/T1/%s/%s.%s-freed-last" % (lang, rname, alloc), ok,
                              "row %s allocates %s with %s but its last post_call line is %r" % (rname, var, alloc, last),
                              sample={"row": rname, "alloc": alloc, "var": var, "last_post_call": last})
+            if "inout" in rname.split("_"):
+                bufs_ = row.get("buf_args") or []
+                cfi_ = any("CFI_cdesc_t" in (x or "") for x in row.get("c_arg_decl") or [])
+                for args in calls_of(pre, "ShroudStrAlloc"):
+                    ok = len(args) == 3 and ((args[1] == CAP_LEN and "len" in bufs_) or (args[1] == CAP_CFI and cfi_))
+                    ctx.item("C06/T1/%s/%s.temporary-has-declared-capacity" % (lang, rname), ok,
+                             "intent(inout) temporary allocated with %r: the callee may write up to the declared length" % (args,),
+                             sample={"row": rname, "call": args})
             dn = row.get("destructor_name")
             if dn:
                 d = [x for x in row.get("destructor") or [] if isinstance(x, str)]
@@ -256,6 +268,13 @@ def char_call_roles(ctx, tabs):
             for args in calls_of(lines, "ShroudStrAlloc"):
                 ok = len(args) == 3 and args[0] == "{c_var}" and (cap_ok(args[1]) or trim_ok(args[1])) and \
                     (args[2] == "-1" or trim_ok(args[2]))
+                if "inout" in rname.split("_"):
+                    # the library may rewrite the text in place up to the declared length: the working copy must have
+                    # the full capacity, not the trimmed length of the incoming value
+                    ctx.item("C10/T1/%s/%s.ShroudStrAlloc:inout-capacity" % (lang, rname), len(args) == 3 and cap_ok(args[1]),
+                             "ShroudStrAlloc%r in an intent(inout) row: the block must be sized by the declared length "
+                             "({c_var_len} with len in buf_args, or the descriptor elem_len)" % (tuple(args),),
+                             sample={"row": rname, "call": args, "buf_args": bufs})
                 # the block is nsrc+1 bytes and ntrim bytes are copied: ntrim <= nsrc needs N to be the capacity when
                 # T is computed (-1), and T == N or T the trimmed length of the same buffer otherwise
                 ctx.item("C10/T1/%s/%s.ShroudStrAlloc:lengths" % (lang, rname), ok,
